@@ -9,6 +9,9 @@ exported pytest function (property C19):
   alive at that statement, and the rebuilt (unbound) `Statement` keeps `assertions`, `accessible`, `ml_info`.
   The unrepaired pass is `PynguinModel.TestCase.ruGo` (C15's model); `oldRu` below is the same pass on this
   file's richer statements.
+* `UnusedStatementsTestCaseVisitor.visit_default_test_case` (`ga/postprocess.py`) as its own step
+  (`visitUnused`: the pass, `deleted_statement_indexes` stays empty) and the family `visitWith del` of visitors that
+  delete statements after the pass (what such a visitor may delete without losing an oracle is a theorem).
 * the statement-removing steps of post-processing that sit between the two passes
   (`remove_statement_with_forward_dependencies` used by the iterative minimisers, `chop` used by
   `ExceptionTruncation`, `clone`): they keep or delete whole `Statement` objects.
@@ -117,10 +120,31 @@ def chop (l : List AStmt) (position : Int) : List AStmt :=
   if position < 0 then removeBatch l (pyRange 0 l.length)
   else removeBatch l (pyRange (position.toNat + 1) l.length)
 
+/-! ### `UnusedStatementsTestCaseVisitor` (`ga/postprocess.py`) -/
+
+/-- `UnusedStatementsTestCaseVisitor.visit_default_test_case(test_case)`:
+`self._deleted_statement_indexes.clear(); test_case.remove_unused_variables()` — the pass and nothing else; no
+index is ever added to the set.  Result: `(test case left behind, deleted_statement_indexes)`. -/
+def visitUnused (l : List AStmt) : List AStmt × List Nat := ((ruFix l).2, [])
+
+/-- The family of visitors the property has to be robust against: after the pass the visitor collects statement
+indexes (`del`, any function of the test case) in `_deleted_statement_indexes` and removes them with
+`remove_statements_batch`.  The code is the member `del = fun _ => []` (`visitUnused_eq_visitWith`);
+`Props/C19.lean` proves which members keep every oracle (`SparesAssertions`) and that one deleting the bare
+literals the pass leaves behind does not. -/
+def visitWith (del : List AStmt → List Nat) (l : List AStmt) : List AStmt × List Nat :=
+  let l' := (ruFix l).2
+  (removeBatch l' (del l'), del l')
+
+/-- the deletion policy of the code: nothing -/
+def visitorDeleted (_ : List AStmt) : List Nat := []
+
 /-- one post-processing step on a test case -/
 inductive Op where
-  /-- `UnusedStatementsTestCaseVisitor` / the call in `TestSuiteWriter.write` -/
+  /-- a direct `remove_unused_variables()` (the call in `TestSuiteWriter.write`) -/
   | removeUnused
+  /-- `TestCasePostProcessor([UnusedStatementsTestCaseVisitor()])` on the chromosome (`generator._minimize`) -/
+  | visitUnused
   /-- an accepted removal of an iterative / combined / crash-preserving minimiser -/
   | removeFwd (index : Nat)
   /-- `ExceptionTruncation` -/
@@ -132,11 +156,28 @@ inductive Op where
 /-- an `IndexError` leaves the test case as it was (the caller's exception handler) -/
 def applyOp (l : List AStmt) : Op → List AStmt
   | .removeUnused => (ruFix l).2
+  | .visitUnused => (visitUnused l).1
   | .removeFwd i => (removeFwd l i).getD l
   | .chop p => chop l p
   | .clone => l
 
 def history (l : List AStmt) (ops : List Op) : List AStmt := ops.foldl applyOp l
+
+/-- the same step / history with the visitor replaced by a member of the `visitWith` family -/
+def applyOpWith (del : List AStmt → List Nat) (l : List AStmt) : Op → List AStmt
+  | .visitUnused => (visitWith del l).1
+  | op => applyOp l op
+
+def historyWith (del : List AStmt → List Nat) (l : List AStmt) (ops : List Op) : List AStmt :=
+  ops.foldl (applyOpWith del) l
+
+/-- `index in _deleted_statement_indexes` for a visitor that deletes what the pass left behind as a bare
+expression over no variable at all (`5`, `'abc'`, `[1, 2]`: not bound, reads nothing) — the "remove unused
+primitives/collections" clean-up the class docstring promises and the code does not do -/
+def bareLeftovers (l : List AStmt) : List Nat :=
+  (List.range l.length).filter (fun i => match l[i]? with
+    | some s => s.bound.isNone && s.uses.isEmpty
+    | none => false)
 
 /-! ### export -/
 
